@@ -51,6 +51,10 @@ macro_rules! core_configs {
         // the narrowest digit, and a 320-bit type with the widest
         $m!($run, d8, 17, BigRef);
         $m!($run, d64, 5, BigRef);
+        // digit counts above 8 for the two middle digit types, with residues 3 (mod 4 and mod 8) and 2:
+        // loops unrolled by 2 / 4 / 8 have a leftover of every size somewhere in the quick list
+        $m!($run, d16, 11, BigRef);
+        $m!($run, d32, 10, BigRef);
         if $run.tier == Tier::Thorough {
             $m!($run, d8, 5, BigRef);
             $m!($run, d8, 8, BigRef);
@@ -60,7 +64,6 @@ macro_rules! core_configs {
             $m!($run, d16, 12, BigRef);
             $m!($run, d32, 4, BigRef);
             $m!($run, d32, 5, BigRef);
-            $m!($run, d32, 10, BigRef);
             $m!($run, d64, 8, BigRef);
             $m!($run, d64, 16, BigRef);
             $m!($run, d64, 64, BigRef);
@@ -81,5 +84,17 @@ macro_rules! core_configs {
             $m!($run, d64, 6, BigRef);
             $m!($run, d64, 7, BigRef);
         }
+    };
+}
+
+/// The widest configurations of the properties' quantifier (8192 bits with each digit type): invokes
+/// $m!(run, family, N, BigRef).  Their plans are small (sets::huge): a few dozen dense / sparse values.
+#[macro_export]
+macro_rules! huge_configs {
+    ($m:ident, $run:expr) => {
+        $m!($run, d8, 1024, BigRef);
+        $m!($run, d16, 512, BigRef);
+        $m!($run, d32, 256, BigRef);
+        $m!($run, d64, 128, BigRef);
     };
 }
